@@ -697,7 +697,7 @@ func probeFailpoints(e *etcdx.Etcd) bool {
 
 func main() {
 	r := ev.New("C01", "exploration")
-	r.Rule("level A: worlds of 2-3 members x 10-40 epochs; per epoch 8-32 requesters with counts mostly small, sometimes thousands, rarely from {0,2^17,2^18-1,2^18,2^20}, an updater at {1,5,50 ms, paused} with a clock mode, and one event from {SetTSO (7 kinds), allocator reset+init, hand-over, crash+restart, update burst}; every third world ends with a natural lease expiry; distinct = (event, updater interval, clock mode, members, save interval) per epoch plus the sequence per world. level B: real server, 6 gRPC Tso streams + 4 pd-client goroutines with leader resignations and admin ResetTS; distinct = event list")
+	r.Rule("level A: worlds of 2-3 members x 10-40 epochs; per epoch 8-32 requesters with counts mostly small, sometimes thousands, rarely from {0,2^17,2^18-1,2^18,2^20}, an updater at {1,5,50 ms, paused} with a clock mode, and one event from {SetTSO (7 kinds), allocator reset+init, hand-over, crash+restart, update burst}; every third world ends with a natural lease expiry; distinct = (event, updater interval, clock mode, members, save interval) per epoch plus the sequence per world. level B: real server, 6 gRPC Tso streams + 4 pd-client goroutines with leader resignations and admin ResetTS; distinct = event list. local allocator: real server with Local TSO (zone dc-1, suffix bits >= 1), 4 goroutines asking the dc-1 allocator for counts from {1,7,40000,65536,100000,131071,131072,200000}")
 	r.Assume("clock offsets are the repository's failpoints on a failpoint-ctl-enabled scratch copy (coverage key clock_failpoints_effective)")
 	r.Assume("a crashed member generation's responses returned after the crash tick are treated as lost (not in the history); a lease is revoked externally only together with dropping the member's objects")
 	rng := rand.New(rand.NewSource(r.ShardSeed()))
@@ -717,6 +717,9 @@ func main() {
 	}
 	e.Close()
 	levelB(r, rng)
+	if r.Violations() == 0 {
+		localSuffixPhase(r, rng)
+	}
 	r.Floor(4)
 	r.Finish()
 }
